@@ -45,7 +45,17 @@ Qed.
 Definition no_master (l : list port) : Prop := Forall (fun p => is_master (p_state p) = false) l.
 Definition so_inv (i : instance) : Prop :=
   dd_slave_only (ds_default (i_ds i)) = true -> no_master (i_ports i).
+Definition cfgs_of (i : instance) : list port_config := map p_config (i_ports i).
+Lemma update_nth_map {A B} (g : A -> B) n x l y :
+  nth_error l n = Some y -> g x = g y -> map g (update_nth n x l) = map g l.
+Proof.
+  revert n; induction l as [|z l IH]; intros [|n] Hn Hg; cbn in *; try discriminate.
+  - inversion Hn; subst. rewrite Hg. reflexivity.
+  - f_equal. apply IH; assumption.
+Qed.
+
 Definition so_step (i i' : instance) : Prop :=
+  cfgs_of i' = cfgs_of i /\
   ds_default (i_ds i') = ds_default (i_ds i) /\
   (dd_slave_only (ds_default (i_ds i)) = true -> no_master (i_ports i) -> no_master (i_ports i')).
 
@@ -61,7 +71,7 @@ Proof.
     { rewrite Forall_forall in Hports. apply Hports. eapply nth_error_In; eauto. }
     destruct (Hf p (i_ds i) Hp Hds) as (p' & d' & o & -> & Hp' & (Hid & Hcfg & Hns) & (Hd' & Hdef) & Hma).
     cbn [obind]. eexists; eexists; split; [reflexivity|].
-    split; [|split; [exact Hdef|]].
+    split; [|split; [unfold cfgs_of; cbn [i_ports]; eapply update_nth_map; [exact En|exact Hcfg]|split; [exact Hdef|]]].
     2: { intros Hso Hnm. cbn [i_ports]. apply update_nth_Forall; [exact Hnm|]. apply Hma; [exact Hso|].
          unfold no_master in Hnm. rewrite Forall_forall in Hnm. apply Hnm. eapply nth_error_In; eauto. }
     unfold inst_inv. cbn [i_ports i_ds i_log_bmca].
@@ -76,5 +86,5 @@ Proof.
     split; [exact Hnum|]. split; [exact Hlen|]. split; [exact Hlog|].
     unfold nslaves in *. eapply Nat.le_trans; [|exact Hsl].
     eapply count_update_nth; [exact En|exact Hns].
-  - eexists; eexists; split; [reflexivity|]. split; [unfold inst_inv; tauto|]. split; [reflexivity|auto].
+  - eexists; eexists; split; [reflexivity|]. split; [unfold inst_inv; tauto|]. split; [reflexivity|]. split; [reflexivity|auto].
 Qed.
